@@ -40,12 +40,12 @@ Segment single(long nQ, long nT) {
         vm::Cells<D> cells; cells.build(c.geo.H, tbx::leafSet<D>(leafOf));
         const auto want = vm::expectedElems<D>(cells, E::Space::IsPeriodic, c.upper);
         for (int T : Ts) for (int rep = 0; rep < (th ? 3 : 2); ++rep) {
-            omp_set_num_threads(T);
+            omp_set_num_threads(rep == 1 ? 1 : T);   // second repetition: the executor is built under one thread and must grow its kernels at execute()
             fmm::PolyRun<E, typename E::CheckedPoly> pr; pr.build(c);
             vp::RecCtx<D> rc; fmm::fillRecCtx<E>(rc, *pr.tree, *pr.cfg, &c.parts, &c.parts);
             rc.currentWorker = [] { return long(omp_get_thread_num()); };
             E::CheckedPoly::globalCtx() = &rc;
-            { auto algo = std::make_unique<TbfOpenmpAlgorithm<Real, typename E::CheckedPoly, typename E::Space>>(*pr.cfg, c.upper); algo->execute(*pr.tree); }
+            { auto algo = std::make_unique<TbfOpenmpAlgorithm<Real, typename E::CheckedPoly, typename E::Space>>(*pr.cfg, c.upper); omp_set_num_threads(T); algo->execute(*pr.tree); }
             for (auto& v : rc.violations) res.fail("c03:" + v.first, v.second + " [libgomp T=" + vh::str(T) + "]");
             const auto got = fmm::snapshotTree<E>(*pr.tree, N);
             if (!(got == ref)) res.fail(std::string("c03:differs-from-sequential:") + (got.rhs != ref.rhs ? "results" : got.cells != ref.cells ? "expansions" : "symbolic"), "libgomp T=" + vh::str(T));
@@ -74,12 +74,12 @@ Segment tsm(long nQ, long nT) {
         vm::Cells<D> cs, ct; cs.build(c.geo.H, tbx::leafSet<D>(ls)); ct.build(c.geo.H, tbx::leafSet<D>(lt));
         const auto want = vm::expectedElemsTsm<D>(cs, ct, E::Space::IsPeriodic, c.upper);
         for (int T : Ts) for (int rep = 0; rep < 2; ++rep) {
-            omp_set_num_threads(T);
+            omp_set_num_threads(rep == 1 ? 1 : T);
             fmm::TsmPolyRun<E> pr; pr.build(c);
             vp::RecCtx<D> rc; pr.fillRec(rc, c);
             rc.currentWorker = [] { return long(omp_get_thread_num()); };
             E::CheckedPoly::globalCtx() = &rc;
-            { auto algo = std::make_unique<TbfOpenmpAlgorithmTsm<Real, typename E::CheckedPoly, typename E::Space>>(*pr.cfg, c.upper); algo->execute(*pr.tree); }
+            { auto algo = std::make_unique<TbfOpenmpAlgorithmTsm<Real, typename E::CheckedPoly, typename E::Space>>(*pr.cfg, c.upper); omp_set_num_threads(T); algo->execute(*pr.tree); }
             for (auto& v : rc.violations) res.fail("c09:" + v.first, v.second + " [libgomp T=" + vh::str(T) + "]");
             const auto got = pr.snapshot();
             if (!(got == ref)) res.fail(std::string("c09:differs-from-sequential:") + (got.rhs != ref.rhs ? "results" : (got.m != ref.m || got.l != ref.l) ? "expansions" : "symbolic"), "libgomp T=" + vh::str(T));
